@@ -20,6 +20,11 @@ context, `lag` (creates nulls) and `hashed` (own encoder).  Every operation gets
   call    spec.get_model_matrix(data, **overrides) / model_matrix(spec | matrix, data, **overrides) /
           ModelSpecs(p0=spec, p1=spec').get_model_matrix(data, **overrides) / materializer.get_model_matrix(spec(s))
           on specs obtained earlier (`materializer`: ONE materializer object per frame, reused by the whole history)
+  dot     a build of a STRING spec with the `.` wildcard, parsed by the build itself: ".", "y ~ .", ". - a", "(.):b",
+          "y ~ a", "x ~ .", "y + x ~ . - a", "a ~ (.):b", interleaved on ONE materializer object per frame
+          (materializer.get_model_matrix(text)), with ONE caller-owned LayeredMapping per frame as parsing context
+          (Formula(text, _context=lm).get_model_matrix(data)), or through model_matrix(text, data); the MODEL expands
+          the wildcard (columns of this call's frame minus the variables of this string's own left-hand side)
   edit    the CALLER edits a formula object between the calls through the sequence protocol of SimpleFormula
           (F.insert(i, t) / F.append(t) / F[i] = t / del F[i], and the collections.abc mixins pop / remove / extend /
           += / clear -- sent to the model as the primitives they are built from; also on `spec.formula`; any index)
@@ -41,7 +46,8 @@ Oracle (implementation only): (1) every call's output -- the matrices AND the ke
 encoder_state of the specs that come with them -- equals the output of the same call on fresh objects (fresh formulas,
 frames, context objects and materializers; only the operations it depends on are replayed: the ancestry of the specs it
 names and the caller's edits of the formula objects involved); (2) frames (hash of values, dtypes, declared categories,
-labels), the context objects, numpy's global random stream and -- except by the caller's own edits -- every formula
+labels), the context objects, the caller-owned LayeredMapping parsing contexts (no key written into them or their
+layers, same keys shown), numpy's global random stream and -- except by the caller's own edits -- every formula
 object are unchanged by every operation; (3) a DEEP snapshot of every previously obtained spec (formula, configuration,
 structure, transform_state / encoder_state with nested dicts, lists, arrays, contrast objects) is unchanged by every
 operation and by reading its derived attributes, and the replay output of previously obtained specs (on deep copies)
@@ -90,6 +96,7 @@ REQUIRED_THEOREMS = [
     "x_history_hash_seed_independent",
     "reorder_is_stable_sort",
     "formula_objects_stay_in_degree_order",
+    "string_build_is_history_independent",
     "state_layout_as_modelled",
     "aliasing_as_modelled",
     "sequence_protocol_as_modelled",
@@ -130,7 +137,8 @@ ASSUMPTIONS = [
     "poly/bs away from degenerate data where a fresh fit gives NaN but a reused one does not)",
 ]
 RULE = (
-    "25 fixed witnesses first (D16, back-quote, context objects, caller's edits; per shape formula: build twice via two "
+    "27 fixed witnesses first (D16, back-quote, context objects, caller's edits, `.` / `y ~ .` / `.` and six more "
+    "wildcard strings interleaved on one materializer object and on one caller-owned LayeredMapping context; per shape formula: build twice via two "
     "entry points / reuse on other data / un-materialised spec; per coding formula x {levels reordered, subset, superset}: "
     "fit, reuse on the same values declared categorical in another level order, reuse on the original again, the same "
     "starting from an un-materialised spec), then random histories (<= 12 ops) over 2-3 of 16 shared formulas (every third "
@@ -138,7 +146,8 @@ RULE = (
     "third frame may lack z, text columns declared categorical with permuted / fewer / more levels, a later frame may be an "
     "earlier one re-declared); interleaving new/update(+reset)/subset/build/call via every entry point incl. joint ModelSpecs "
     "calls, one reused materializer object per frame, attribute overrides; 35% of the histories also contain the caller's "
-    "edits of formula objects; malformed stream (25%): formula swaps that keep a structure (KeyError), subsets of "
+    "edits of formula objects; 20% interleave string specs with the `.` wildcard (one- and two-sided, several left-hand "
+    "sides, mostly on one frame: 50% shared materializer object, 33% caller-owned LayeredMapping, 17% model_matrix); malformed stream (25%): formula swaps that keep a structure (KeyError), subsets of "
     "un-materialised specs / unknown terms, inconsistent joint specs, na_action='raise' with nulls, missing columns, edit "
     "indices out of range, a data column named like a reserved evaluator name; hash-seed batches over ALL cases with 6 "
     "seeds (thorough: 16); non-trivial = some spec is materialised at least twice or reused after an update; distinct by "
@@ -369,6 +378,48 @@ def _tok(v):
 POOL = ["x", "z", "a", "b", "x:z", "center(x)", "1", "a:b", "c", "scale(z)"]
 
 
+# string specs with the `.` wildcard ("every column of the data that this formula's own left-hand side does not use"):
+# they can only be parsed against a data set, so every build parses the STRING again.
+# name -> (text, variables of the left-hand side, terms of the left-hand side | None, template of the right-hand side
+#          with the factor "." standing for the wildcard, terms subtracted)
+DOTS = {
+    "D1": (".", [], None, [[], ["."]], []),
+    "D2": ("y ~ .", ["y"], [["y"]], [[], ["."]], []),
+    "D3": (". - a", [], None, [[], ["."]], [["a"]]),
+    "D4": ("(.):b", [], None, [[], [".", "b"]], []),
+    "D5": ("y ~ a", ["y"], [["y"]], [[], ["a"]], []),
+    "D6": ("x ~ .", ["x"], [["x"]], [[], ["."]], []),
+    "D7": ("y + x ~ . - a", ["y", "x"], [["y"], ["x"]], [[], ["."]], [["a"]]),
+    "D8": ("a ~ (.):b", ["a"], [["a"]], [[], [".", "b"]], []),
+}
+
+
+def _lm_keys(lm, depth=0):
+    """every key written INTO a LayeredMapping or one of its LayeredMapping layers (`_mutations`)"""
+    from formulaic.utils.layered_mapping import LayeredMapping
+
+    out = [sorted(map(str, lm._mutations))]
+    for layer in lm._layers:
+        if isinstance(layer, LayeredMapping) and depth < 4:
+            out.append(_lm_keys(layer, depth + 1))
+    return out
+
+
+def _term_text(t):
+    """a term as a string that the parser reads back as that term (a looked-up name that is not an identifier -- a column
+    `my col` brought in by the `.` wildcard -- must be back-quoted; the printed form of the term does not do that)"""
+    return ":".join(f"`{f.expr}`" if f.eval_method.value == "lookup" and not f.expr.isidentifier() else f.expr
+                    for f in t.factors) or "1"
+
+
+def _flat(x):
+    for t in x:
+        if isinstance(t, list):
+            yield from _flat(t)
+        else:
+            yield t
+
+
 def _term(text):
     """the Term object printed as `text` (the last term of the parsed string; `1` is the intercept itself)"""
     from formulaic import Formula
@@ -394,6 +445,7 @@ class World:
         self.fnames = _fnames(case)
         self.fobj = [self.F[n] for n in self.fnames]  # formula OBJECTS by creation order (identity matters)
         self.mats = {}  # one persistent materializer object per frame (entry point `materializer.get_model_matrix`)
+        self.lms = {}  # one caller-owned LayeredMapping per frame, handed to the parser as its context
 
     def fc(self, formula):
         """number of a formula object (new ones are numbered when they are first seen)"""
@@ -410,6 +462,17 @@ class World:
             self.mats[d] = FormulaMaterializer.for_data(self.frames[d])(self.frames[d], context=self.ctx)
         return self.mats[d]
 
+    def lm(self, d):
+        """the caller's own parsing context for frame d: a LayeredMapping with a `data` layer (what `.` looks at)"""
+        from formulaic.utils.layered_mapping import LayeredMapping
+
+        if d not in self.lms:
+            self.lms[d] = LayeredMapping(LayeredMapping(self.frames[d], name="data"), LayeredMapping(self.ctx, name="context"))
+        return self.lms[d]
+
+    def lm_repr(self):
+        return repr(sorted((d, _lm_keys(lm), sorted(map(str, lm))) for d, lm in self.lms.items()))
+
     # -- resolution of the symbolic references of a case against the current number of handles
     def resolve(self, op):
         n = len(self.H)
@@ -421,7 +484,7 @@ class World:
             r["h"] = op["h"] % n
         if k == "subset":
             spec = self.H[r["h"]]
-            terms = [str(t) for t in spec.formula]
+            terms = [_term_text(t) for t in spec.formula]
             pick = [terms[i % len(terms)] for i in op["pick"]] if terms else []
             pick = list(dict.fromkeys(pick))
             if op.get("bogus"):
@@ -434,7 +497,7 @@ class World:
             r["hs"] = [h % n for h in op["hs"]]
             if r.get("via") == "matrix" and (len(r["hs"]) != 1 or self.M[r["hs"][0]] is None):
                 r["via"] = "mm"
-        if k in ("build", "call"):
+        if k in ("build", "call", "dot"):
             r["d"] = op["d"] % len(self.frames)
         if k == "edit":
             if "h" in op["target"]:
@@ -542,7 +605,20 @@ class World:
                 self._publish([s], [None], i)
                 return {"parts": []}, None
             data = self.frames[op["d"]]
-            if k == "build":
+            if k == "dot":
+                from formulaic import Formula
+
+                text = DOTS[op["s"]][0]
+                self.dot_formulas = None
+                if op["via"] == "materializer":
+                    res = self.materializer(op["d"]).get_model_matrix(text, ensure_full_rank=op["efr"], na_action=op["na"])
+                elif op["via"] == "lmctx":
+                    f = Formula(text, _context=self.lm(op["d"]))
+                    self.dot_formulas = f
+                    res = f.get_model_matrix(data, context=self.ctx, ensure_full_rank=op["efr"], na_action=op["na"])
+                else:
+                    res = model_matrix(text, data, context=self.ctx, ensure_full_rank=op["efr"], na_action=op["na"])
+            elif k == "build":
                 f = self.F[op["f"]]
                 if op.get("via") == "formula":
                     res = f.get_model_matrix(data, context=self.ctx, ensure_full_rank=op["efr"], na_action=op["na"])
@@ -584,9 +660,11 @@ class World:
             ]
             return {"parts": parts}, canon
         except Exception as e:  # the class is the observable
+            if k == "dot":
+                self._register_lost_dot(op)
             self.parts_done = done[0]
             name = type(e).__name__
-            if k in ("build", "call") and name in ("FactorEvaluationError", "ValueError"):
+            if k in ("build", "call", "dot") and name in ("FactorEvaluationError", "ValueError"):
                 # Step 1 raises on the FIRST failing factor of `factors: set[Factor]`: when one factor cannot be
                 # evaluated and another has nulls under na_action='raise', WHICH of the two exceptions escapes
                 # depends on the set's iteration order (observed: PYTHONHASHSEED=0/1 ValueError, 2..5
@@ -596,6 +674,18 @@ class World:
             return {"err": name}, {"err": name}
         finally:
             FormulaMaterializer._build_model_matrix = orig
+
+    def _register_lost_dot(self, op):
+        """a dot build that raised after parsing: its formula objects exist (the model creates them) but no spec shows them"""
+        from formulaic import Formula
+        from formulaic.utils.layered_mapping import LayeredMapping
+        from formulaic.utils.structured import Structured
+
+        f = self.dot_formulas
+        if f is None:
+            f = Formula(DOTS[op["s"]][0], _context=LayeredMapping(LayeredMapping(self.frames[op["d"]], name="data")))
+        for part in (list(f._flatten()) if isinstance(f, Structured) else [f]):
+            self.fc(part)
 
     def _publish(self, specs, mats, i):
         for j, (s, m) in enumerate(zip(specs, mats)):
@@ -714,6 +804,7 @@ def run_history(case, light=False):
             fh = [_frame_hash(w.frames[d]) for d in touched]
             fr = _formula_repr(list(w.fobj))
             cx = _ctx_repr(w.ctx)
+            lmx = w.lm_repr()
             rs = _rng_state()
             deep = [_deep_spec(s_, formula=not is_edit) for s_ in w.H]
         out, canon = w.execute(op, len(rec))
@@ -733,6 +824,18 @@ def run_history(case, light=False):
                 bad.append(f"an object of the caller's context was mutated: {cx} -> {_ctx_repr(w.ctx)}")
             if rs != _rng_state():
                 bad.append("the operation consumed numpy's global random stream")
+            lmy = w.lm_repr()
+            if lmx != lmy:
+                # a LayeredMapping the CALLER owns and hands to the parser as context is an input: nothing may be written
+                # into it and it must show the same keys (one created by this very operation starts with no written keys)
+                import ast as _ast
+
+                before = {d: (keys, shown) for d, keys, shown in _ast.literal_eval(lmx)}
+                for d, keys, shown in _ast.literal_eval(lmy):
+                    if list(_flat(keys)) and keys != before.get(d, (None, None))[0]:
+                        bad.append(f"the caller's LayeredMapping context for frame {d} was written to: {sorted(set(_flat(keys)))}")
+                    elif d in before and shown != before[d][1]:
+                        bad.append(f"the caller's LayeredMapping context for frame {d} shows other keys than before")
             for h, (b4, s_) in enumerate(zip(deep, w.H)):
                 if b4 != _deep_spec(s_, formula=not is_edit):
                     bad.append(f"the recorded state of the previously obtained spec #{h} (formula, configuration, structure, "
@@ -785,7 +888,7 @@ def fresh_output(case, rec, i):
         k = r["op"]["k"]
         if "err" in r["out"] or k == "edit":
             continue
-        n = len(r["out"]["parts"]) if k in ("build", "call") else 1
+        n = len(r["out"]["parts"]) if k in ("build", "call", "dot") else 1
         origin += [(j, p) for p in range(n)]
     last = [r for r in rec if "specs" in r]
     hfc = [sp["fc"] for sp in last[-1]["specs"]] if last else []
@@ -880,6 +983,12 @@ def model_params(case, handles=()):
                 if fa.eval_method.value != "literal" and fa.expr not in factors:
                     factors.append(fa.expr)
                     method[fa.expr] = fa.eval_method.value
+    if any(op["k"] == "dot" for op in case["ops"]):
+        for fr in case["frames"]:
+            for col in fr:
+                if col not in ("__cat__", "__ordered__") and col not in factors:
+                    factors.append(col)
+                    method[col] = "lookup"
     if any(op["k"] == "edit" for op in case["ops"]):
         # terms the caller may put into a formula object
         for text in POOL:
@@ -1172,8 +1281,15 @@ def _gen_ops(rng, malformed, nmax, fams=None):
     buildable = [m for f in fams for m in (["F2", "F2r"] if f == "F2" else [f])]
     n = rng.randint(3, nmax)
     edits = rng.random() < 0.35  # histories in which the caller also edits formula objects between the calls
+    dots = rng.random() < 0.2  # histories that interleave string specs with the `.` wildcard, one- and two-sided,
+    dframe = rng.randint(0, 5)  # mostly on ONE frame: one shared materializer object / one caller-owned parsing context
     for i in range(n):
         r = rng.random()
+        if dots and rng.random() < 0.45:
+            ops.append(dict(k="dot", s=rng.choice(list(DOTS)),
+                            via=rng.choice(["materializer", "materializer", "materializer", "lmctx", "lmctx", "mm"]),
+                            d=dframe if rng.random() < 0.8 else rng.randint(0, 5), **_gen_cfg(rng, malformed)))
+            continue
         if i == 0:
             r = rng.choice([0.05, 0.2])
         if edits and i > 0 and rng.random() < 0.22:
@@ -1344,6 +1460,20 @@ EDIT_WITNESS = dict(
     ],
 )
 
+def _dot_witness(via):
+    """one shared materializer object / one caller-owned LayeredMapping: `.`, then `y ~ .`, then `.` again (the third
+    result is the first: all columns, `y` included), other left-hand sides and wildcard expressions in between, a reuse"""
+    def b(s, d=0):
+        return dict(k="dot", s=s, via=via, d=d, efr=True, na="drop")
+
+    return dict(
+        frames=[_GFRAME, _GFRAME2], ctx=CTX,
+        ops=[b("D1"), b("D2"), b("D1"), b("D6"), b("D3"), b("D5"), b("D1"), b("D4"), b("D7"), b("D1", 1), b("D8"), b("D1"),
+             dict(k="call", hs=[0], via="materializer", u=None, d=1),
+             dict(k="build", f="F1", via="materializer", d=0, efr=True, na="drop"), b("D1")],
+    )
+
+
 SHAPE_FORMULAS = ["G1", "G2", "G3", "G4", "G5", "G6"]
 ORDER_FORMULAS = ["H1", "H2", "H3", "F1", "G2"]
 QUICK_SEEDS = [0, 1, 2, 3, 4, 5]
@@ -1351,7 +1481,8 @@ QUICK_SEEDS = [0, 1, 2, 3, 4, 5]
 
 def _fixed_cases(seeds):
     out = [dict(D16_WITNESS, seeds=seeds), dict(BACKQUOTE_WITNESS, seeds=seeds), dict(CONTEXT_WITNESS, seeds=seeds),
-           dict(EDIT_WITNESS, seeds=seeds)]
+           dict(EDIT_WITNESS, seeds=seeds), dict(_dot_witness("materializer"), seeds=seeds),
+           dict(_dot_witness("lmctx"), seeds=seeds)]
     out += [dict(_shape_witness(f), seeds=seeds) for f in SHAPE_FORMULAS]
     out += [dict(_order_witness(f, how), seeds=seeds) for f in ORDER_FORMULAS for how in ("reorder", "subset", "superset")]
     return out
@@ -1380,18 +1511,20 @@ def cases(rng, tier):
 
 def describe(c):
     ks = [o["k"] for o in c["ops"]]
-    return f"ops={len(ks)},calls={ks.count('call') + ks.count('build')},edits={ks.count('edit')},frames={len(c['frames'])}"
+    return (f"ops={len(ks)},calls={ks.count('call') + ks.count('build') + ks.count('dot')},edits={ks.count('edit')},"
+            f"dots={ks.count('dot')},frames={len(c['frames'])}")
 
 
 def nontrivial(c):
     ks = [o["k"] for o in c["ops"]]
-    return ks.count("call") >= 2 or (ks.count("call") >= 1 and ("update" in ks or "subset" in ks))
+    return (ks.count("call") >= 2 or (ks.count("call") >= 1 and ("update" in ks or "subset" in ks))
+            or ks.count("dot") >= 2)
 
 
 def impl(c):
     w, rec = run_history(c)
     for i, r in enumerate(rec):
-        r["fresh"], r["fresh_m"] = fresh_output(c, rec, i) if r["op"]["k"] in ("build", "call") else (None, None)
+        r["fresh"], r["fresh_m"] = fresh_output(c, rec, i) if r["op"]["k"] in ("build", "call", "dot") else (None, None)
     return dict(ops=rec, params=model_params(c, w.H))
 
 
@@ -1403,9 +1536,17 @@ def _pick_terms(text):
         return [text]
 
 
-def _model_op(op, fid):
-    """fid: name of a formula object -> its number (creation order)"""
+def _model_op(op, fid, nforms=0, cols=None):
+    """fid: name of a formula object -> its number (creation order); nforms: formula objects that exist before the
+    operation; cols: the columns of the frames"""
     k = op["k"]
+    if k == "dot":
+        # a STRING spec is parsed by the build itself: new formula object(s) every time.  The wildcard is expanded by the
+        # MODEL from the template, the columns of this call's frame and this string's own left-hand side.
+        text, lhsvars, lhs, tmpl, remove = DOTS[op["s"]]
+        pre = [] if lhs is None else [dict(op="formula", f=lhs)]
+        pre.append(dict(op="formula", dot=dict(cols=cols[op["d"]], lhs=lhsvars, tmpl=tmpl, remove=remove)))
+        return pre + [dict(op="build", fids=list(range(nforms, nforms + len(pre))), efr=op["efr"], na=op["na"], d=op["d"])]
     if k == "new":
         return dict(op="new", fid=fid[op["f"]], efr=op["efr"], na=op["na"])
     if k == "update":
@@ -1451,8 +1592,11 @@ def _model_groups(c, o):
     fid = {n: i for i, n in enumerate(names)}
     flat = [dict(op="formula", f=_terms(F[n])) for n in names]
     ends = []
+    cols = [[k for k in fr if k not in ("__cat__", "__ordered__")] for fr in c["frames"]]
+    nforms = len(names)
     for r in o["ops"]:
-        m = _model_op(r["op"], fid)
+        m = _model_op(r["op"], fid, nforms, cols)
+        nforms = len(r["forms"])  # (compared with the model's after every operation)
         flat += m if isinstance(m, list) else [m]
         ends.append(len(flat) - 1)
     return flat, ends
@@ -1513,7 +1657,7 @@ def agree(c, o, m):
         if r["forms"] != hm["forms"]:
             return (f"after op {i} {r['op']}: the formula objects (terms in order; objects in creation order) are "
                     f"{r['forms']} in the implementation vs {hm['forms']} in the model")
-        if r["op"]["k"] in ("build", "call"):
+        if r["op"]["k"] in ("build", "call", "dot"):
             for what, rec_, dig in (("history", hm["out"], r["mdigest"]), ("fresh", pm, r["fresh_m"])):
                 key = json.dumps(rec_, sort_keys=True)
                 if key in records and records[key][0] != dig:
@@ -1528,7 +1672,7 @@ def oracle(c, o):
         return None
     for i, r in enumerate(o["ops"]):
         msgs = []
-        if r["op"]["k"] in ("build", "call") and r["digest"] != r["fresh"]:
+        if r["op"]["k"] in ("build", "call", "dot") and r["digest"] != r["fresh"]:
             what = ("the matrices differ" if r.get("mdigest") != r.get("fresh_m")
                     else "the matrices agree but the fitted state (transform_state / encoder_state keys or values) of the returned spec differs")
             msgs.append(f"its output inside the history differs from the output of the same call on fresh objects: {what} "
@@ -1549,7 +1693,7 @@ def classify(c, o, why):
 
 
 LEVEL_TEXT = (
-    "Proof: Lean theorems (Props/C18.lean, 31) about a store model of ModelSpec state (reference cells for transform_state / "
+    "Proof: Lean theorems (Props/C18.lean, 32) about a store model of ModelSpec state (reference cells for transform_state / "
     "encoder_state, update() sharing, in-place writes of get_model_matrix steps 2-3) extended by formula OBJECTS (which "
     "object every spec holds, the caller's edits through the sequence protocol with Python's index rules and the re-sort "
     "by degree, state-resetting updates) show, for ALL histories and all numeric parameters: every outcome equals the "
@@ -1557,7 +1701,9 @@ LEVEL_TEXT = (
     "read); no operation other than the caller's own edit changes a formula object, the value of an earlier spec or the "
     "outcome of any later operation on earlier objects; an operation that raises -- at any point -- changes nothing, so "
     "any reuse after a fault gives what it would have given without it; an edit reaches exactly the specs that hold the "
-    "object and only their formula; repeated calls agree; the aliasing bookkeeping is consistent.  Rank reduction is inside "
+    "object and only their formula; a spec given as a string (with the `.` wildcard expanded by the model from the columns "
+    "of the call's frame and the string's own left-hand side) builds to what it builds to in the empty world, whatever "
+    "was parsed before on the same materializer / context objects; repeated calls agree; the aliasing bookkeeping is consistent.  Rank reduction is inside "
     "the model (the code of _get_scoped_terms / _simplify_scoped_terms with the iteration order of every plain set as a "
     "parameter) and proved total and independent of those orders, as factor evaluation is of the order of the factor set "
     "-- hence column order, values and dropped rows do not depend on the hash seed; a variant that hands a plain set to "
